@@ -297,6 +297,8 @@ static void legalMoves(Position& pos, MoveList& ml) {
 
 static int countPiece(const Position& pos, int p) { return BitBoard::bitCount(pos.pieceTypeBB_[p]); }
 
+static bool g_lastSameFileDouble = false;   // set by pickMove: the chosen move is a double push on the e.p. file
+
 static bool pickMove(const Position& pos0, Rng& rng, int mode, Move& res) {
     // move generation runs on a copy: MoveGen::isLegal uses makeMoveB/unMakeMoveB, which scribble on
     // the (dead) pieceTypeBB_[EMPTY] entry of the object they are given
@@ -304,10 +306,16 @@ static bool pickMove(const Position& pos0, Rng& rng, int mode, Move& res) {
     MoveList ml;
     legalMoves(pos, ml);
     if (ml.size == 0) return false;
-    std::vector<int> promQ, prom, pawn, capt, castle;
+    std::vector<int> promQ, prom, pawn, capt, castle, dbl, dblSameFile;
+    const Square ep0 = pos.getEpSquare();
+    g_lastSameFileDouble = false;
     for (int i = 0; i < ml.size; i++) {
         const Move& m = ml[i];
         int p = pos.getPiece(m.from());
+        if ((p == Piece::WPAWN || p == Piece::BPAWN) && abs(m.to().asInt() - m.from().asInt()) == 16) {
+            dbl.push_back(i);
+            if (ep0.isValid() && ep0.getX() == m.to().getX()) dblSameFile.push_back(i);
+        }
         if (m.promoteTo() == Piece::WQUEEN || m.promoteTo() == Piece::BQUEEN) promQ.push_back(i);
         else if (m.promoteTo() != Piece::EMPTY) prom.push_back(i);
         else if (p == Piece::WPAWN || p == Piece::BPAWN) pawn.push_back(i);
@@ -315,7 +323,10 @@ static bool pickMove(const Position& pos0, Rng& rng, int mode, Move& res) {
         if ((p == Piece::WKING || p == Piece::BKING) && abs(m.to().asInt() - m.from().asInt()) == 2) castle.push_back(i);
     }
     int idx = -1;
-    if (mode == 1) {
+    // case split of setEpSquare: e.p. square present before and after the move, same file / other file
+    if (!dblSameFile.empty() && rng.chance(85)) { idx = dblSameFile[rng.below(dblSameFile.size())]; g_lastSameFileDouble = true; }
+    else if (!dbl.empty() && rng.chance(ep0.isValid() ? 40 : 12)) idx = dbl[rng.below(dbl.size())];
+    else if (mode == 1) {
         if (!promQ.empty() && rng.chance(85)) idx = promQ[rng.below(promQ.size())];
         else if (!prom.empty() && rng.chance(50)) idx = prom[rng.below(prom.size())];
         else if (!pawn.empty() && rng.chance(80)) idx = pawn[rng.below(pawn.size())];
@@ -336,10 +347,10 @@ static void walk(std::ostream& out, u64 seed, int plies, int mode, const std::st
     Machine M(out);
     if (!M.opFen(fen)) return;
     int budget = plies;
-    int maxQ = 0;
+    int maxQ = 0, nSameFile = 0, nSameFileUndone = 0, nEpToEp = 0;
     while (budget > 0) {
         int r = rng.below(100);
-        if (r < 66) {
+        if (r < 64) {
             Move m;
             if (!pickMove(M.pos, rng, mode, m)) {
                 if (M.moves.empty()) break;
@@ -348,7 +359,27 @@ static void walk(std::ostream& out, u64 seed, int plies, int mode, const std::st
                 budget -= 1;
                 continue;
             }
+            bool sameFile = g_lastSameFileDouble;
+            bool epBefore = M.pos.getEpSquare().isValid();
             M.opMk(m); budget--;
+            if (sameFile) nSameFile++;
+            if (epBefore && M.pos.getEpSquare().isValid()) nEpToEp++;
+            if (sameFile && rng.chance(70)) {       // take the same-file double push back at once
+                M.opUn(); budget--; nSameFileUndone++;
+                if (rng.chance(50)) M.opToFen();
+            }
+        } else if (r < 68) {                       // setEpSquare edits to another rank of the same file and back
+            int ep = M.pos.getEpSquare().asInt();
+            int x = (ep >= 0) ? (ep & 7) : rng.below(8);
+            int alt1 = x + 16, alt2 = x + 40;
+            if (ep >= 0) {
+                int alt = (ep == alt1) ? alt2 : alt1;
+                M.opEdit("sep", alt); M.opEdit("sep", ep);
+                if (rng.chance(50)) { M.opEdit("sep", -1); M.opEdit("sep", alt); M.opEdit("sep", ep); }
+            } else {
+                M.opEdit("sep", alt1); M.opEdit("sep", alt2); M.opEdit("sep", (x + 1) % 8 + 16); M.opEdit("sep", -1);
+            }
+            budget--;
         } else if (r < 76) {                       // forced take-back segment
             if (M.moves.empty()) continue;
             int k = 1 + rng.below(std::min<int>(M.moves.size(), 10));
@@ -443,6 +474,7 @@ static void walk(std::ostream& out, u64 seed, int plies, int mode, const std::st
     M.opSer();
     M.opToFen();
     out << "# maxq " << maxQ << '\n';
+    out << "# epcases " << nSameFile << ' ' << nSameFileUndone << ' ' << nEpToEp << '\n';
 }
 
 static void dumpTables(std::ostream& out) {
